@@ -175,6 +175,46 @@ Fixpoint canon (ls : lenstyle) (e : Encoding.enc) (t : ty) (tag : option N) (v :
   | _, _ => None
   end.
 
+(* the field loop of `canon` for a struct, as a function of its own (CanonRoundtrip.canon_struct_unfold) *)
+Fixpoint canon_fields (tail : option bytes) (tagged_allowed : bool) (fs : list field) (vs : list value) (after_tagged : bool)
+  : option bytes :=
+  match fs, vs with
+  | [], [] => Some []
+  | Fld _ tg l' e' t' :: fr, x :: vr =>
+      match tg with
+      | None =>
+          if after_tagged then None else
+          match canon_fields tail tagged_allowed fr vr false with
+          | Some rest =>
+              match canon l' e' t' None x (match tail with Some tl => Some (rest ++ tl) | None => None end) with
+              | Some g => Some (g ++ rest)
+              | None => None
+              end
+          | None => None
+          end
+      | Some tn =>
+          if tagged_allowed && tag_repr_b tn then
+            match canon_fields tail tagged_allowed fr vr true with
+            | Some rest =>
+                match canon l' e' t' (Some tn) x None with
+                | Some g => Some (g ++ rest)
+                | None => None
+                end
+            | None => None
+            end
+          else None
+      end
+  | _, _ => None
+  end.
+
+(* a struct whose tagged groups may arrive in ANY order: the positional fields must be self-delimiting
+   (context None), everything else as in `canon` *)
+Definition canon_anyorder (fs : list field) (v : value) : option bytes :=
+  match v with
+  | VRec vs => if nodup_b (tags_of fs) then canon_fields None true fs vs false else None
+  | _ => None
+  end.
+
 (* a whole packet without / with a control field *)
 Definition canon_struct (fs : list field) (v : value) : option bytes := canon LEmpty EDefault (TStruct fs) None v (Some []).
 Definition canon_cmd (c : cmd) (v : value) : option bytes :=
